@@ -24,6 +24,7 @@ def run(ctx):
     ctx.rule("R4", "formula trees: physical_position, seek_physical, PagedWriter::align, PagedReader::align")
     ctx.rule("R5", "page constants agree (1024 / 1020 / 4); the page cursors are assigned only inside the verified functions")
     ctx.rule("R6", "read_current_page loops over short reads until full or EOF and zero-fills the rest of the whole page buffer")
+    ctx.rule("R7", "the page reader's cache typestate: who-may-write, invalidate-on-clobber, validate-before-publish (shared with C07-R1..R3)")
     for cfg in ["lib", "lib_crc32c"]:
         prog, info = load_program(cfg, "e57")
         ctx.configs[cfg] = info
@@ -37,4 +38,7 @@ def run(ctx):
         page_rules.cursor_writers(ctx, prog, "R5")
         page_rules.read_current_page_shape(ctx, prog, "R6")
         cache_rules.serve_only_verified(ctx, prog, cache_rules.PR, rule="R4")
+        cache_rules.who_may_write(ctx, prog, cache_rules.PR, rule="R7")
+        cache_rules.invalidate_on_clobber(ctx, prog, cache_rules.PR, rule="R7")
+        cache_rules.validate_before_publish(ctx, prog, cache_rules.PR, "table" if cfg == "lib" else "crate", rule="R7")
     ctx.cfg = None
